@@ -17,8 +17,9 @@ OPS = {'o': 'cleared', 'x': 'failed', '-': 'passed', 'r': 'retired'}
 
 
 class Player(object):
-    def __init__(self, n, on_call=None, noise=0, draw=None, max_reg=4, lenient=False, float_heights=False, bibs=None):
-        self.c, self.m, self.hist = hjsearch.start((bibs or BIBS)[:n])
+    def __init__(self, n, on_call=None, noise=0, draw=None, max_reg=4, lenient=False, float_heights=False, bibs=None, add_ops=None):
+        self.c, self.m, self.hist = hjsearch.start((bibs or BIBS)[:n], add_ops)
+        self.add_calls = list(self.hist)
         self.alive = True
         self.on_call = on_call
         self.noise = noise
@@ -56,7 +57,7 @@ class Player(object):
                         self.on_call(self, call_, vs_, 'tail-accepted' if acc_ else 'tail-refused')
                 if self.on_call:
                     self.on_call(self, call, vs, status)
-                hjsearch.universal_tail(self.c, list(self.m.order), [('add', b) for b in self.m.order] + list(self.all_calls), self.draw, self.tail,
+                hjsearch.universal_tail(self.c, list(self.m.order), list(self.add_calls) + list(self.all_calls), self.draw, self.tail,
                                         self.float_heights, seen)
                 return status
         if self.on_call:
@@ -124,10 +125,15 @@ def jumpoff(p, draw, max_heights=3):
 INT_BIBS = [7, 12, 101, 5]
 
 
-def random_play(draw, on_call=None, noise=0, nmin=2, lenient=False, float_heights=False, tail=0, int_bibs=False):
+ENTRY_OPS = ['add', 'add', 'add:guest', 'add:guest', 'add:full', 'add:order']
+
+
+def random_play(draw, on_call=None, noise=0, nmin=2, lenient=False, float_heights=False, tail=0, int_bibs=False, entries=False):
     n = nmin + draw(5 - nmin)
     hreg = 1 + draw(4)
-    p = Player(n, on_call, noise, draw, lenient=lenient, float_heights=float_heights, bibs=INT_BIBS if int_bibs else None)
+    # entries=True: some athletes are entered with the optional start-list keywords (a guest flag, names, an order)
+    ops = [ENTRY_OPS[draw(len(ENTRY_OPS))] for _ in range(n)] if entries else None
+    p = Player(n, on_call, noise, draw, lenient=lenient, float_heights=float_heights, bibs=INT_BIBS if int_bibs else None, add_ops=ops)
     p.tail = tail
     bibs = (INT_BIBS if int_bibs else BIBS)[:n]
     step = hjsearch.STEP if not float_heights or draw(2) else Decimal('0.01')
